@@ -296,7 +296,7 @@ func mkSetup(d caseData) setup {
 func genCases(seed int64, tier string) []core.Case {
 	nh, drivers := 10, []string{"memory", "secrets"}
 	if tier == "thorough" {
-		nh, drivers = 120, []string{"memory", "secrets", "configmaps"}
+		nh, drivers = 250, []string{"memory", "secrets", "configmaps"}
 	}
 	rng := rand.New(rand.NewSource(seed*104729 + 3))
 	type hist struct {
